@@ -5,7 +5,7 @@ func init() {
 		ID: "C09",
 		Explain: "Decides inertness of rejected rows and the content of warnings structurally, for every file and every position of a bad row: " +
 			"(REJECT) in each of the ten row loops every path that leaves the iteration by `continue` (all CFG paths are enumerated) performs no store to memory that outlives the iteration, no update of an outer map, no call with side effects, and leaves every loop-carried variable unchanged (warnings, logging and the csv layer's per-row state exempt); " +
-			"(CACHE) the current-trip cache never remembers a key without its trip; (G9) the record slice that encoding/csv reuses under ReuseRecord is kept only in row.cells and leaves package csv only as a copy; " +
+			"(CACHE) the current-trip cache never remembers a key without its trip; (G9) the record slice that encoding/csv reuses under ReuseRecord is kept only in row.cells and leaves package csv only as a copy; no slice field that an exported method of the csv package hands out is refilled in place afterwards (`append(field[:0], ...)`, copy into it); " +
 			"(A9) NewStaticWarning takes File/RowNumber/RowContent/HeaderContent from the file's accessors, the accessors return the corresponding fields, and rowNumber is incremented by exactly one only on the path that hands out a row (first data row = 1). " +
 			"RowContent hands out the header exactly while the record counter is 0 (its tests on the counter are evaluated for 0..3); (SCAN) no row loop is left by a break; (ROWSTATE) every field of the per-row object of csv.File is renewed on every path of NextRow that announces a row: what a rejected row left there (e.g. the blank required cells noted so far) cannot make the next row rejected. Not decided: which rows count as invalid (C01/C03 cover the reject conditions' targets).",
 		Rules: []Rule{
